@@ -15,11 +15,11 @@ func init() {
 	register(&Check{
 		ID: "C15",
 		Explanation: "Structural rules over string.go (engines E7/E4): AG5 ToLower/ToUpper/Capitalize range over the string rune by rune and append, for every rune, exactly the result of unicode.ToLower / unicode.ToUpper of that rune (Capitalize: upper at offset 0, lower elsewhere) and convert the rune slice back; SnakeCase and KebabCase are the same call differing only in the delimiter constant; " +
-			"Wrap writes token, payload, token in this order and WrapAllRune does so around every rune; ReverseStr converts to []rune, only swaps, and converts back (PV4); the Pad functions return the input unchanged under size <= len(str) and otherwise concatenate pad and input in the documented order with the pad cut to exactly size-len(str) bytes (left/right halves for Pad); " +
+			"Wrap writes token, payload, token in this order and WrapAllRune does so around every rune; ReverseStr converts to []rune, only swaps, and converts back (PV4); the Pad functions return the input unchanged under size <= len(str) (or an empty token), cut the repeated token only on paths that have excluded the empty token (PT6) and otherwise concatenate pad and input in the documented order with the pad cut to exactly size-len(str) bytes (left/right halves for Pad); " +
 			"SplitAtIndex returns on every path a two-element slice whose parts are (\"\", str), (str, \"\") or the complementary cuts str[:x], str[x:]; Unwrap strips exactly len(token) bytes from both ends and only under HasPrefix, HasSuffix and len(str) >= 2*len(token); BD2 Substr: premise (loop-free; integers combined by + - and comparisons; affine forms of (len, offset, length) with small coefficients at every comparison and slice bound) decided on the SSA of Substr, Abs, InRange, Null; under it the outcome (the byte range returned, the empty string, or slice bounds outside 0 <= lo <= hi <= len = panic) is tabulated over len 0..6 x offset, length -9..9 (thorough: doubled) against the statement's selection rule; GS1/GS2 hygiene. " +
-			"Decides these necessary conditions; the availability of enough pad bytes and the regexp-based case converters are not decided.",
+			"Decides these necessary conditions; the regexp-based case converters are not decided.",
 		Assumptions: []string{"go/ssa faithful to the source", "contracts of unicode.ToLower/ToUpper, strings.HasPrefix/HasSuffix/Repeat, strings.Builder"},
-		NotDecided:  []string{"integer overflow of len+offset / offset+length in Substr at the extremes of int", "that the repeated pad token is long enough for the cut (empty token panics)", "CamelCase/SnakeCase/KebabCase word splitting (regular expressions)"},
+		NotDecided:  []string{"integer overflow of len+offset / offset+length in Substr at the extremes of int", "that the repeated pad token is long enough for the cut beyond the empty-token case (the float arithmetic of Pad's halves)", "CamelCase/SnakeCase/KebabCase word splitting (regular expressions)"},
 		Run:         runC15,
 	})
 }
@@ -292,10 +292,27 @@ func runC15(p *core.Program, r *core.Report) {
 			rv := path.Strip(alt.val)
 			fs := edgeFacts(x, fn, alt.blk)
 			long := hasFact(fs, "size", "<=", "len(str)") || hasFact(fs, "size", "<", "len(str)")
-			if long || rv == str {
-				c.ob("PT3", name, "long enough input returned unchanged", p.InstrPos(rt), long && rv == str, "the input must be returned unchanged exactly under size <= len(str)")
+			// an empty pad token cannot fill anything: the input is handed back as it is
+			noTok := hasFact(fs, "len(token)", "==", "0") || hasFact(fs, "len(token)", "<=", "0") || hasFact(fs, "len(token)", "<", "1") || hasFact(fs, "token", "==", "\"\"")
+			if !long && !noTok && len(alt.blk.Preds) > 1 {
+				// "size <= len(str) || len(token) == 0": every way into the return carries one of the two
+				all := true
+				for _, pr := range alt.blk.Preds {
+					pf := edgeFactsInto(x, fn, pr, alt.blk)
+					if !(hasFact(pf, "size", "<=", "len(str)") || hasFact(pf, "size", "<", "len(str)") || hasFact(pf, "len(token)", "==", "0") || hasFact(pf, "len(token)", "<=", "0") || hasFact(pf, "len(token)", "<", "1") || hasFact(pf, "token", "==", "\"\"")) {
+						all = false
+					}
+				}
+				long = all
+			}
+			if long || noTok || rv == str {
+				c.ob("PT3", name, "long enough input returned unchanged", p.InstrPos(rt), (long || noTok) && rv == str, "the input must be returned unchanged exactly under size <= len(str) (or when the pad token is empty)")
 				continue
 			}
+			// PT6: a cut pad[:k] of the (repeated) token needs k bytes: strings.Repeat of an
+			// empty token is empty, so the path must have excluded the empty token
+			hasTok := hasFact(fs, "len(token)", ">", "0") || hasFact(fs, "len(token)", "!=", "0") || hasFact(fs, "len(token)", ">=", "1") || hasFact(fs, "token", "!=", "\"\"")
+			c.ob("PT6", name, "pad cut only with a non-empty token", p.InstrPos(rt), hasTok, "the pad is cut to the missing length (pad[:k]) on a path that has not excluded the empty token: strings.Repeat(\"\", k) is empty and the cut panics (size > len(str), token \"\")")
 			// concatenation shape
 			parts := flattenConcat(rv)
 			var desc []string
